@@ -177,6 +177,10 @@ type Run struct {
 	QFailing []string
 	QTotal   int
 	QRan     bool
+	// history log stand-in (C17)
+	HFailing []string
+	HTotal   int
+	HRan     bool
 	SchemaCount int
 }
 
@@ -360,6 +364,14 @@ func verifyRun(opts *RunOpts) (*Run, error) {
 			run.StandinErrs = append(run.StandinErrs, [2]string{"queue", err.Error()})
 		} else {
 			run.QFailing, run.QTotal, run.QRan = f, total, true
+		}
+	}
+	if opts.Prop == "C17" {
+		f, total, err := runBoundedHistory(opts)
+		if err != nil {
+			run.StandinErrs = append(run.StandinErrs, [2]string{"history", err.Error()})
+		} else {
+			run.HFailing, run.HTotal, run.HRan = f, total, true
 		}
 	}
 	if opts.Prop == "C05" {
